@@ -88,6 +88,7 @@ func (bm *Bondmachine) SinglePipelineSimulate(dataType string, input []string, s
 	if err := vm.Launch_processors(sbox); err != nil {
 		return nil, err
 	}
+	defer vm.Stop()
 
 	// Main simulation loop, tick by tick
 	for i := uint64(0); i < uint64(1000000000); i++ {
